@@ -1,4 +1,5 @@
 import AfkakProofs.Consumer.Trace
+import AfkakProofs.Consumer.A5_CR1
 import AfkakProps.Open.C03
 /-!
 # C03 — commits never run ahead of successfully processed messages
@@ -46,6 +47,12 @@ theorem C03_crash_safe (cfg : Cfg) (script : List PEntry) (evs : List Ev) (n : N
       C03.failureStopsOk (trace cfg script (evs.take n)) = true :=
   ⟨C03_commit_le_processed cfg script (evs.take n), C03_failure_stops_progress cfg script (evs.take n)⟩
 
+/-- A manual `commit()` (called by the application or re-entrantly by the processor) whose Deferred succeeds AT ONCE,
+    without a commit request being issued, reports the last successfully processed offset (or nothing has been
+    processed yet), on every trace. -/
+theorem C03_commit_reports : Open.C03.C03_commit_reports := fun cfg script evs =>
+  accepts_trace _ _ cfg script evs (A5.run_e cfg script evs).c1
+
 /-! Non-vacuity: `start(OFFSET_COMMITTED)`, the coordinator reports offset 41, the consumer fetches at 42. -/
 example :
     let cfg : Cfg := { group := true, autoN := 0, autoS := 0, bufInit := 100, bufMax := none, retryInit := 1, retryMax := 2,
@@ -63,7 +70,7 @@ C03_committed_is_acked
 C03_resume
 C03_failure_stops_progress
 C03_crash_safe
+C03_commit_reports
 -/
 /- OPEN_STATEMENTS
-C03_commit_reports
 -/
